@@ -293,6 +293,7 @@ func runCase(c Case) (fail *hx.Failure) {
 	}
 
 	var stops []stop
+	boundedAt := -1 // index of the first stop after which all break points were removed (session bound)
 	lastCmd := map[uint64]string{}
 	cmdIdx := 0
 	contAt := map[uint64]time.Time{}
@@ -324,9 +325,9 @@ func runCase(c Case) (fail *hx.Failure) {
 			}
 			if len(stops) > 400 {
 				cmd = "resume" // keep resuming: bounded session
-				inner.RemoveBreakPoint(srcName, 0)
-				for l := range active {
-					delete(active, l)
+				if boundedAt < 0 {
+					boundedAt = len(stops) // stops from here on meet an empty break point table
+					inner.RemoveBreakPoint(srcName, 0)
 				}
 			}
 			stops = append(stops, stop{tid64, line, depth, cmd})
@@ -393,9 +394,14 @@ func runCase(c Case) (fail *hx.Failure) {
 	// (2) every stop after a resume (or the first one) must be justified
 	firstStop := true
 	prevCmd := map[uint64]string{}
-	for _, st := range stops {
+	for i, st := range stops {
 		pc, seen := prevCmd[st.tid]
 		if !seen || pc == "resume" {
+			if boundedAt >= 0 && i > boundedAt {
+				// the session bound removed all break points while this thread may already
+				// have been waiting at one: stops of the tail are not judged
+				break
+			}
 			justified := active[st.line] || (c.BreakOnStart && firstStop) || c.BreakOnError
 			if !justified {
 				return hx.Failf("unjustified-stop", "thread %d stopped at line %d after '%s' but there is no active breakpoint there (active: %v, breakOnStart=%v, breakOnError=%v)\n%s",
